@@ -27,8 +27,14 @@ type c07Item struct {
 // c07OnlyUnder reports whether, between x and body, x is nested only in block statements, labels and the loop `loop`.
 func c07OnlyUnder(par map[ast.Node]ast.Node, x ast.Node, body *ast.BlockStmt, loop ast.Node) bool {
 	for p := par[x]; p != nil && p != ast.Node(body); p = par[p] {
-		switch p.(type) {
-		case *ast.BlockStmt, *ast.LabeledStmt, *ast.ExprStmt:
+		switch q := p.(type) {
+		case *ast.BlockStmt, *ast.LabeledStmt, *ast.ExprStmt, *ast.AssignStmt, *ast.DeclStmt, *ast.GenDecl, *ast.ValueSpec,
+			*ast.CallExpr, *ast.ParenExpr, *ast.UnaryExpr, *ast.StarExpr, *ast.SelectorExpr, *ast.IndexExpr, *ast.CompositeLit, *ast.KeyValueExpr:
+			// (operands of simple statements are evaluated whenever the statement is)
+		case *ast.BinaryExpr:
+			if q.Op == token.LAND || q.Op == token.LOR {
+				return false
+			}
 		default:
 			if p != loop {
 				return false
@@ -138,6 +144,9 @@ func loopRunsNTimes(info *types.Info, loop *ast.ForStmt, n types.Object) bool {
 }
 
 // c07EvalInt evaluates an integer expression built from constants, + - * and the object n (with value nv).
+// c07EvalSame, when set, tells c07EvalInt that two variables hold the same worker count (a parameter bound to it).
+var c07EvalSame func(a, b types.Object) bool
+
 func c07EvalInt(info *types.Info, e ast.Expr, n types.Object, nv int64) (int64, bool) {
 	e = stripConv(info, e)
 	if v, ok := constInt(info, e); ok {
@@ -146,6 +155,9 @@ func c07EvalInt(info *types.Info, e ast.Expr, n types.Object, nv int64) (int64, 
 	switch x := e.(type) {
 	case *ast.Ident:
 		if n != nil && objOf(info, x) == n {
+			return nv, true
+		}
+		if n != nil && c07EvalSame != nil && c07EvalSame(objOf(info, x), n) {
 			return nv, true
 		}
 	case *ast.BinaryExpr:
@@ -176,14 +188,14 @@ func c07P1(r *core.R) {
 
 	// (a) the wait-group counter: simulate the spawner's Add calls and go statements in execution order
 	c := "wg.Add@" + m.start.Name()
-	var loop *ast.ForStmt
+	var loop ast.Stmt
 	multiLoop := false
 	for _, g := range m.gos {
-		if g.inLoop != nil {
-			if loop != nil && loop != g.inLoop {
+		if g.loopStmt != nil {
+			if loop != nil && loop != g.loopStmt {
 				multiLoop = true
 			}
-			loop = g.inLoop
+			loop = g.loopStmt
 		}
 	}
 	var items []c07Item
@@ -242,7 +254,9 @@ func c07P1(r *core.R) {
 			lastGo = it.key[0]
 		}
 	}
-	nObj := c07CountedLoop(info, loop)
+	nObj := c07CountedLoopStmt(m, loop)
+	c07EvalSame = func(a, b types.Object) bool { return c07SameCount(m, a, b) }
+	defer func() { c07EvalSame = nil }()
 	why := ""
 	switch {
 	case nAdds == 0:
